@@ -249,6 +249,15 @@ type c03Want struct {
 	Why    string   `json:"why"`
 	Chain  string   `json:"chain"`
 	Detail string   `json:"detail"`
+	// identical copies (set when the rule's content occurs more than once in the HEAD file or
+	// in the base version of the file): the group the rule belongs to and how many copies of
+	// that content the base version and the HEAD version hold
+	DupGroup  string `json:"dup_group,omitempty"`
+	DupBase   int    `json:"dup_base,omitempty"`
+	DupHead   int    `json:"dup_head,omitempty"`
+	DupSame   bool   `json:"dup_same_path,omitempty"`
+	DupCounts bool   `json:"dup_counts,omitempty"` // the group is judged by counting (one base version, known history)
+	DupSkip   string `json:"dup_skip,omitempty"`   // why it is not
 }
 
 func c03AddSet(set map[string]bool, xs ...string) {
@@ -277,6 +286,7 @@ func c03Reference(base, head c03Snap, origins map[string]*c03Origin) []c03Want {
 		for i, r := range rules {
 			accept := map[string]bool{}
 			var whys, details []string
+			dupHead, dupBase, dupSame := 0, 0, false
 			key := c03Key(r, f)
 			nk := r.Kind + "\x00" + r.Name
 			for _, cand := range o.cands {
@@ -300,8 +310,13 @@ func c03Reference(base, head c03Snap, origins map[string]*c03Origin) []c03Want {
 				same := cand == p
 				switch {
 				case headKeys[key] > 1 || bKeys[key] > 1:
-					c03AddSet(accept, c03States...)
-					whys = append(whys, "duplicate-content")
+					// identical copies: pairing is one to one, see c03DupAccept
+					w, d := c03DupAccept(accept, headKeys[key], bKeys[key], same, o)
+					whys = append(whys, w)
+					if d != "" {
+						details = append(details, d)
+					}
+					dupHead, dupBase, dupSame = headKeys[key], bKeys[key], same
 				case bKeys[key] == 1:
 					details = append(details, "file-comments-"+c03FileCommentsDiff(b, f))
 					if same {
@@ -346,7 +361,14 @@ func c03Reference(base, head c03Snap, origins map[string]*c03Origin) []c03Want {
 			if chain == "" {
 				chain = "untouched"
 			}
-			out = append(out, c03Want{Path: p, Ord: i, Kind: r.Kind, Name: r.Name, Accept: acc, Why: strings.Join(uniq(whys), "|"), Chain: chain, Detail: strings.Join(uniq(details), "|")})
+			w := c03Want{Path: p, Ord: i, Kind: r.Kind, Name: r.Name, Accept: acc, Why: strings.Join(uniq(whys), "|"), Chain: chain, Detail: strings.Join(uniq(details), "|")}
+			if dupHead > 0 {
+				w.DupGroup = fmt.Sprintf("%s#%x", p, c03Hash(key))
+				w.DupHead, w.DupBase, w.DupSame = dupHead, dupBase, dupSame
+				w.DupSkip = c03DupSkip(o)
+				w.DupCounts = w.DupSkip == ""
+			}
+			out = append(out, w)
 		}
 	}
 	return out
@@ -413,6 +435,7 @@ type c03Outcome struct {
 	freshLine int
 	markers   int
 	intended  int // renames the generator intended
+	dup       c03DupStats
 }
 
 var c03HexRe = regexp.MustCompile(`[0-9a-f]{7,40}`)
@@ -563,6 +586,13 @@ func c03Judge(obs c03Obs, head, base c03Snap, wants []c03Want, phase string, out
 			continue
 		}
 		text := strings.Split(f.Render(), "\n")
+		states := make([]string, len(rules))
+		for i := range rules {
+			states[i] = c03MapState(es[i].State)
+		}
+		for _, dp := range c03JudgeCopies(ws, states, phase == "branch", &out.dup) {
+			add(dp.sig, p+": "+dp.what)
+		}
 		for i, r := range rules {
 			e := es[i]
 			w := ws[i]
@@ -983,6 +1013,16 @@ func runC03(c *core.Ctx) int {
 		cases = append(cases, c03GenCase(c.Rand("c03", i), i))
 	}
 	run.Extra("directed_histories", nDirected)
+	// second stratum: files that hold identical copies of a rule at the branch point (c03copies.go).
+	// It is appended, so the histories above are the same as they were without it.
+	copiesFrom := len(cases)
+	cases = append(cases, c03DirectedCopies()...)
+	nCopiesDirected := len(cases) - copiesFrom
+	for i := 0; len(cases)-copiesFrom < c.N(60, 700); i++ {
+		cases = append(cases, c03GenCopiesCase(c.Rand("c03copies", i), i))
+	}
+	run.Extra("copies_directed_histories", nCopiesDirected)
+	n = len(cases)
 	outs := make([]c03Outcome, n)
 	core.Parallel(n, 16, func(i int) {
 		outs[i] = c03Check(c, cases[i])
@@ -1038,6 +1078,7 @@ func runC03(c *core.Ctx) int {
 		run.Count("rules_at_head_judged", int64(len(o.wants)))
 		run.Count("marker_reports_matched", int64(o.markers))
 		run.Count("fresh_lines_checked", int64(o.freshLine))
+		c03DupEvidence(run, cs, o)
 		var ops, states []string
 		for _, cm := range cs.Branch {
 			for _, op := range cm.Ops {
@@ -1077,7 +1118,7 @@ func runC03(c *core.Ctx) int {
 			sort.Strings(states)
 			run.Nontrivial(strings.Join(ops, ",") + " => " + strings.Join(states, ","))
 		}
-		if i < nDirected {
+		if i < nDirected || (i >= copiesFrom && i < copiesFrom+nCopiesDirected) {
 			var ops []string
 			for _, cm := range cs.Branch {
 				ops = append(ops, cm.Ops...)
@@ -1088,7 +1129,7 @@ func runC03(c *core.Ctx) int {
 			}
 			directed = append(directed, fmt.Sprintf("%v: %s", ops, strings.Join(cls, " ")))
 		}
-		if i%(n/6+1) == 0 {
+		if i%(n/6+1) == 0 || i == copiesFrom+nCopiesDirected || i == n-1 {
 			var hist []string
 			for k, cm := range cs.Branch {
 				var st []string
@@ -1132,7 +1173,8 @@ func runC03(c *core.Ctx) int {
 	run.Assume("where the base version of a file is arguable (rename onto a path that existed at the branch point, new file at a path renamed away earlier, re-created file whose predecessor arrived by rename) every defensible base version is accepted")
 	run.Assume("file-level control comments count through the set of checks they switch off (file/disable and an active file/snooze of the same check are equivalent)")
 	run.Assume("rules sharing kind+name inside one file are only judged when their content is found unchanged at the base; otherwise added or modified are both accepted")
+	run.Assume("identical copies of a rule inside one file are paired one to one with the identical copies in the base version of the file: with b copies at the base and h at HEAD, min(b,h) HEAD copies are untouched (unmodified, or renamed with the file) and h-min(b,h) are new; which of the copies are the new ones is not judged, only how many")
 	return run.Finish("exploration",
-		"histories: base of 1-4 files x 1-6 rules (1-2 commits on main), pr branch of 1-8 commits x 1-3 operations (add/delete/rename/copy file, rename+edit, swaps through a temporary name and inside one commit, delete-then-recreate, add/delete/modify rule per field incl. control comments, move rule inside/between files, comment-only and whitespace-only edits, re-indent, key/label reorder, edit-then-revert), main advancing 0-3 commits afterwards; built with real git. Reference = generator's model of base and HEAD content + git's per-commit rename reports. Observed: Entry.State/ModifiedLines and dispatched checks of the real `pint ci` (H1 dump) and its --json under one marker check per state + one block without match; run before and after main advances. Non-trivial = history with >= 2 distinct states at HEAD; distinct by multiset of (operation kinds, states).",
+		"histories (first stratum): base of 1-4 files x 1-6 rules (1-2 commits on main), pr branch of 1-8 commits x 1-3 operations (add/delete/rename/copy file, rename+edit, swaps through a temporary name and inside one commit, delete-then-recreate, add/delete/modify rule per field incl. control comments, move rule inside/between files, comment-only and whitespace-only edits, re-indent, key/label reorder, edit-then-revert), main advancing 0-3 commits afterwards; built with real git. Reference = generator's model of base and HEAD content + git's per-commit rename reports. Observed: Entry.State/ModifiedLines and dispatched checks of the real `pint ci` (H1 dump) and its --json under one marker check per state + one block without match; run before and after main advances. Second stratum (copies_*): base files holding 2-4 identical copies of a rule (same or different groups, same or different layout), branch of 1-4 commits that first touches such a file (edit another rule, delete/add/edit/move a copy, rename the file, layout, file-level comments) mixed with the operations above; copies are judged as a one-to-one pairing (per copy when the base holds at least as many, by count otherwise). Non-trivial = history with >= 2 distinct states at HEAD; distinct by multiset of (operation kinds, states).",
 		core.Floors{MinEvaluations: int64(n), MinNontrivial: n / 5, MaxInconclusiveFrac: 0.02})
 }
